@@ -225,6 +225,8 @@ func (fx *FnCtx) evalSpec(env *Env, e SpecExpr) SV {
 		return untypedSV(v)
 	case *SChar:
 		return untypedSV(big.NewInt(int64(x.Val)))
+	case *SStr:
+		return SV{V: fx.stringConst(x.Val, types.Typ[types.String])}
 	case *SIdent:
 		return fx.evalIdent(env, x)
 	case *SUn:
@@ -1031,6 +1033,11 @@ func (fx *FnCtx) evalCall(env *Env, x *SCall) SV {
 		a := fx.evalSpec(env, x.Args[0])
 		b := fx.evalSpec(env, x.Args[1])
 		return boolSV(And(Eq(a.V.L[0], b.V.L[0]), Eq(a.V.L[1], b.V.L[1])))
+	case "sameBacking":
+		// sameBacking(a, b): the two slices are views of one allocation (whatever their offsets)
+		a := fx.evalSpec(env, x.Args[0])
+		b := fx.evalSpec(env, x.Args[1])
+		return boolSV(Eq(a.V.L[0], b.V.L[0]))
 	case "div": // floor division (SMT semantics for positive divisor)
 		a := fx.evalIdx(env, x.Args[0])
 		b := fx.evalIdx(env, x.Args[1])
@@ -1126,6 +1133,18 @@ func (fx *FnCtx) evalCall(env *Env, x *SCall) SV {
 			}
 		}
 		return SV{V: out}
+	}
+	if sf.Macro {
+		m := env.child()
+		for k, v := range sub.vars {
+			m.vars[k] = v
+		}
+		m.hint = rtyp
+		r := fx.evalSpec(m, sf.Body)
+		if r.Untyped {
+			r = fx.typed(r, rtyp)
+		}
+		return r
 	}
 	if sf.EntryState && fx.root.entry != nil {
 		sub.st = fx.root.entry
@@ -1351,6 +1370,57 @@ func (fx *FnCtx) loopEnv(li *loopInfo, st *State, phiVals map[*ssa.Phi]Value) *E
 			if phi.Comment == name {
 				if v, ok := phiVals[phi]; ok {
 					return SV{V: v}, true
+				}
+			}
+		}
+		// rangeindexN / rangesliceN: the hidden index and the slice of the enclosing range loop
+		// with ordinal N (for the invariants of inner loops)
+		for _, pre := range []string{"rangeindex", "rangeslice"} {
+			if !strings.HasPrefix(name, pre) || len(name) == len(pre) {
+				continue
+			}
+			n, err := strconv.Atoi(name[len(pre):])
+			if err != nil || n < 0 || n >= len(fx.loops.loops) {
+				continue
+			}
+			outer := fx.loops.loops[n]
+			isAnc := false
+			for l := li.parent; l != nil; l = l.parent {
+				if l == outer {
+					isAnc = true
+				}
+			}
+			if !isAnc {
+				continue
+			}
+			idx, ln := rangeLoopParts(outer)
+			if idx == nil {
+				continue
+			}
+			if pre == "rangeindex" {
+				if v, ok := fx.vals[idx]; ok {
+					return SV{V: v}, true
+				}
+				continue
+			}
+			if c, ok := ln.(*ssa.Call); ok && len(c.Call.Args) == 1 {
+				if v, ok := fx.vals[c.Call.Args[0]]; ok {
+					return SV{V: v}, true
+				}
+			}
+		}
+		// rangeslice: the slice a "for ... range s" loop runs over (s may be an unnamed temporary,
+		// e.g. the result of a call)
+		if name == "rangeslice" {
+			if _, ln := rangeLoopParts(li); ln != nil {
+				if c, ok := ln.(*ssa.Call); ok {
+					if b, ok := c.Call.Value.(*ssa.Builtin); ok && b.Name() == "len" && len(c.Call.Args) == 1 {
+						if _, isSl := c.Call.Args[0].Type().Underlying().(*types.Slice); isSl {
+							if v, ok := fx.vals[c.Call.Args[0]]; ok {
+								return SV{V: v}, true
+							}
+						}
+					}
 				}
 			}
 		}
